@@ -330,7 +330,7 @@ func drive(d *mon.Driver, replay string) int {
 		"scripts run under a VirtualOS without mounts whose exit handler records os.exit; the globals exec, http, net, dns, fetch are removed (external commands and explicit exit are excluded by the statement; the network is kept out of a check)",
 		"the embedding API is exercised as: risor.NewConfig, parser.Parse, compiler.Compile, risor.Eval / EvalCode / Call, Error() / FriendlyErrorMessage() / the ParserError accessors of every returned error (and of what it wraps), Inspect() / Interface() of every returned value",
 		fmt.Sprintf("screening runs limit the native stack to %d MB so that an unbounded native recursion dies fast; a dead worker is only reported after the case died again alone under Go's default 1 GB limit", screenStack>>20),
-		"memory exhaustion by data size is excluded: value sizes are capped, a worker that exceeds 5 GB of live heap or is killed is inconclusive; a per-case watchdog of 45 s makes hangs inconclusive",
+		"memory exhaustion by data size is excluded: value sizes are capped, a worker that exceeds 5 GB of live heap or is killed is inconclusive; a per-case watchdog (20 s, 60 s for the deep-nesting and deep-data cases) makes hangs inconclusive",
 		"a crash that needs a race between script threads (concurrent map access) is only reported when it repeats in the confirmation run",
 	}
 	k := &checker{d: d, samples: map[string]int{}, perFam: map[string]int{}, crashed: map[string][]int{}, okDeep: map[string][]int{}, sigs: map[string]int{}}
@@ -486,7 +486,7 @@ func drive(d *mon.Driver, replay string) int {
 	// ---- workload 2: scripts
 	rs := d.Rand("scripts")
 	scrOpts := mon.PoolOpts{BatchSize: 100, BatchTimeout: 5 * time.Minute}
-	depth := 10000
+	depth := 2000 // nesting depth of the "deep" values in bulk scripts (rendering is quadratic in the depth); really deep data below
 	ids := make([]string, len(values))
 	var nasty []string
 	for i, v := range values {
